@@ -198,3 +198,474 @@ func H_C07_binding(d, s int) {
 	verifAssert(dstT.IsValidJson(delivered, &alarms, lookup) == nil, "C07: the value delivered to the stage conforms to the declared type of its parameter")
 	verifCover("delivered value validated")
 }
+
+// ---- further binding shapes (H_C07_shapes)
+
+// c07T is a type in the TypeId representation: arrDim arrays of (mapDim > 0:
+// typed maps of mapDim-1 dimensional arrays of) base.
+type c07T struct {
+	base   string
+	arrDim int
+	mapDim int
+}
+
+func (t c07T) text() string {
+	s := t.base
+	if t.mapDim > 0 {
+		for i := 1; i < t.mapDim; i++ {
+			s += "[]"
+		}
+		s = "map<" + s + ">"
+	}
+	for i := 0; i < t.arrDim; i++ {
+		s += "[]"
+	}
+	return s
+}
+
+// elem: the type of what a map call iterates over, per the language
+// documentation: an array loses its outermost dimension, a typed map yields
+// its value type.
+func (t c07T) elem() (c07T, bool) {
+	if t.arrDim > 0 {
+		return c07T{t.base, t.arrDim - 1, t.mapDim}, true
+	}
+	if t.mapDim > 0 {
+		return c07T{t.base, t.mapDim - 1, 0}, true
+	}
+	return t, false
+}
+
+func c07TAssignable(dst, src c07T) bool {
+	return dst.arrDim == src.arrDim && dst.mapDim == src.mapDim && c07BaseOK(dst.base, src.base)
+}
+
+var c07Collections = []c07T{
+	{"int", 1, 0},  // int[]
+	{"int", 2, 0},  // int[][]
+	{"int", 0, 1},  // map<int>
+	{"int", 1, 1},  // map<int>[]
+	{"int", 0, 2},  // map<int[]>
+	{"IN", 1, 0},   // IN[]
+	{"IN", 0, 1},   // map<IN>
+	{"WIDE", 1, 0}, // WIDE[]
+	{"int", 0, 0},  // int: not a collection
+	{"float", 1, 0},
+	{"int", 2, 1}, // map<int>[][]
+}
+
+var c07Dsts = []c07T{
+	{"int", 0, 0},
+	{"float", 0, 0},
+	{"int", 1, 0},
+	{"int", 0, 1},
+	{"IN", 0, 0},
+	{"float", 1, 0},
+	{"string", 0, 0},
+	{"int", 1, 1}, // map<int>[]
+}
+
+func c07Line(text, needle string) int {
+	idx := strings.Index(text, needle)
+	if idx < 0 {
+		panic("fixture text lacks " + needle)
+	}
+	line := 1
+	for _, c := range text[:idx] {
+		if c == '\n' {
+			line++
+		}
+	}
+	return line
+}
+
+func c07Itoa(n int) string {
+	s := ""
+	for ; n > 0; n /= 10 {
+		s = string(rune('0'+n%10)) + s
+	}
+	return s
+}
+
+// c07Verdict compiles the text and compares with the oracle; needle is the
+// text of the offending binding (a rejection must name its line, or the line
+// of a call or return statement that contains it: up to `span` lines above).
+func c07Verdict(text string, want bool, needle string, span int) *Ast {
+	var parser Parser
+	_, _, ast, err := parser.ParseSourceBytes([]byte(text), "/m/t.mro", nil, false)
+	verifCover("shape compiled")
+	if want {
+		verifCover("well-typed shape")
+		verifAssert(err == nil, "C07: a convertible binding is accepted")
+		if err != nil {
+			return nil
+		}
+		return ast
+	}
+	verifCover("ill-typed shape")
+	verifAssert(err != nil, "C07: a binding that cannot be converted to its parameter's type is rejected at compile time")
+	if err != nil {
+		msg := err.Error()
+		line := c07Line(text, needle)
+		located := false
+		for d := 0; d <= span; d++ {
+			if strings.Contains(msg, "/m/t.mro:"+c07Itoa(line-d)) {
+				located = true
+			}
+		}
+		verifAssert(located, "C07: the rejection locates the offending binding (its line, or the line of the statement containing it)")
+	}
+	return nil
+}
+
+func c07Stages(srcT, dstT string, extraIn string) string {
+	return c07Decls + `
+stage PRODUCER(
+    in  int n,
+    out ` + srcT + ` o,
+    src comp "bin",
+)
+
+stage CONSUMER(
+    in  ` + dstT + ` x,` + extraIn + `
+    out int r,
+    src comp "bin",
+)
+`
+}
+
+// H_C07_split(c, d): `map call CONSUMER(x = split PRODUCER.o)` with o of
+// collection type c and x of type d.
+//
+//	C07: accepted exactly when the element type of the collection converts to
+//	     the parameter's type (an array of typed maps yields typed maps; a
+//	     typed map of arrays yields arrays; a scalar is not a collection).
+func H_C07_split(c, d int) {
+	coll, dst := c07Collections[c], c07Dsts[d]
+	text := c07Stages(coll.text(), dst.text(), "") + `
+pipeline TOP(
+    in  int n,
+)
+{
+    call PRODUCER(
+        n = self.n,
+    )
+
+    map call CONSUMER(
+        x = split PRODUCER.o,
+    )
+
+    return ()
+}
+
+call TOP(
+    n = 1,
+)
+`
+	el, isColl := coll.elem()
+	want := isColl && c07TAssignable(dst, el)
+	c07Verdict(text, want, "x = split PRODUCER.o", 1)
+}
+
+// H_C07_splitPair(c1, c2): two split arguments of one map call.
+//
+//	C07: collections of different kinds (array versus typed map) are rejected
+//	     as inconsistent; two arrays or two typed maps are accepted.
+func H_C07_splitPair(c1, c2 int) {
+	a, b := c07Collections[c1], c07Collections[c2]
+	ea, oka := a.elem()
+	eb, okb := b.elem()
+	if !oka || !okb {
+		return
+	}
+	text := c07Decls + `
+stage PRODUCER(
+    in  int n,
+    out ` + a.text() + ` o,
+    out ` + b.text() + ` p,
+    src comp "bin",
+)
+
+stage CONSUMER(
+    in  ` + ea.text() + ` x,
+    in  ` + eb.text() + ` y,
+    out int r,
+    src comp "bin",
+)
+
+pipeline TOP(
+    in  int n,
+)
+{
+    call PRODUCER(
+        n = self.n,
+    )
+
+    map call CONSUMER(
+        x = split PRODUCER.o,
+        y = split PRODUCER.p,
+    )
+
+    return ()
+}
+
+call TOP(
+    n = 1,
+)
+`
+	sameKind := (a.arrDim > 0) == (b.arrDim > 0)
+	c07Verdict(text, sameKind, "y = split PRODUCER.p", 2)
+}
+
+var c07Projections = []struct {
+	holder c07T   // type of PRODUCER.o
+	field  string // projected member
+	result c07T   // type of PRODUCER.o.<field>; base "" = no such member
+}{
+	{c07T{"IN", 0, 0}, "a", c07T{"int", 0, 0}},
+	{c07T{"IN", 0, 0}, "s", c07T{"string", 0, 0}},
+	{c07T{"IN", 1, 0}, "a", c07T{"int", 1, 0}},
+	{c07T{"IN", 0, 1}, "a", c07T{"int", 0, 1}},
+	{c07T{"IN", 2, 0}, "a", c07T{"int", 2, 0}},
+	{c07T{"IN", 1, 1}, "a", c07T{"int", 1, 1}},
+	{c07T{"WIDE", 1, 0}, "extra", c07T{"float", 1, 0}},
+	{c07T{"IN", 0, 0}, "extra", c07T{"", 0, 0}},
+	{c07T{"IN", 1, 0}, "zz", c07T{"", 0, 0}},
+	{c07T{"int", 0, 0}, "a", c07T{"", 0, 0}},
+}
+
+// H_C07_projection(p, d): x = PRODUCER.o.<field>, through arrays and typed maps.
+func H_C07_projection(p, d int) {
+	pr, dst := c07Projections[p], c07Dsts[d]
+	text := c07Stages(pr.holder.text(), dst.text(), "") + `
+pipeline TOP(
+    in  int n,
+    out int r,
+)
+{
+    call PRODUCER(
+        n = self.n,
+    )
+
+    call CONSUMER(
+        x = PRODUCER.o.` + pr.field + `,
+    )
+
+    return (
+        r = CONSUMER.r,
+    )
+}
+
+call TOP(
+    n = 1,
+)
+`
+	want := pr.result.base != "" && c07TAssignable(dst, pr.result)
+	c07Verdict(text, want, "x = PRODUCER.o."+pr.field, 1)
+}
+
+var c07Literals = []struct {
+	text string
+	ok   func(dst c07T) bool
+}{
+	{"1", func(d c07T) bool { return d.arrDim == 0 && d.mapDim == 0 && (d.base == "int" || d.base == "float") }},
+	{"1.5", func(d c07T) bool { return d.arrDim == 0 && d.mapDim == 0 && d.base == "float" }},
+	{`"s"`, func(d c07T) bool { return d.arrDim == 0 && d.mapDim == 0 && d.base == "string" }},
+	{"true", func(d c07T) bool { return false }},
+	{"null", func(d c07T) bool { return true }},
+	{"[1, 2]", func(d c07T) bool { return d.arrDim == 1 && d.mapDim == 0 && (d.base == "int" || d.base == "float") }},
+	{"[1, 2.5]", func(d c07T) bool { return d.arrDim == 1 && d.mapDim == 0 && d.base == "float" }},
+	{`[1, "s"]`, func(d c07T) bool { return false }},
+	{"[[1], [2, 3]]", func(d c07T) bool { return false }},
+	{`{"k": 1}`, func(d c07T) bool { return d.arrDim == 0 && d.mapDim == 1 && d.base == "int" }},
+	{`[{"k": 1}]`, func(d c07T) bool { return d.arrDim == 1 && d.mapDim == 1 && d.base == "int" }},
+	{`{"k": "s"}`, func(d c07T) bool { return false }},
+	{`{a: 1, s: "x"}`, func(d c07T) bool { return d.arrDim == 0 && d.mapDim == 0 && d.base == "IN" }},
+	{`{a: 1}`, func(d c07T) bool { return false }},
+	{`{a: 1, s: "x", extra: 2}`, func(d c07T) bool { return false }},
+	{`{a: "x", s: "x"}`, func(d c07T) bool { return false }},
+}
+
+// H_C07_literal(l, d): x = <literal>.
+func H_C07_literal(l, d int) {
+	lit, dst := c07Literals[l], c07Dsts[d]
+	text := c07Stages("int", dst.text(), "") + `
+pipeline TOP(
+    out int r,
+)
+{
+    call CONSUMER(
+        x = ` + lit.text + `,
+    )
+
+    return (
+        r = CONSUMER.r,
+    )
+}
+
+call TOP()
+`
+	c07Verdict(text, lit.ok(dst), "x = "+lit.text, 1)
+}
+
+// H_C07_params(kind): missing and unknown parameters, non-existent outputs,
+// and pipeline parameters / return bindings as the two ends of a binding.
+func H_C07_params(kind, d, s int) {
+	dst, src := c07Types[d], c07Types[s]
+	conv := c07Assignable(dst, src)
+	var text, needle string
+	want := false
+	span := 1
+	switch kind {
+	case 0: // a declared parameter is not bound
+		text = c07Stages("int", "int", "\n    in  int y,") + `
+pipeline TOP(
+    in  int n,
+    out int r,
+)
+{
+    call CONSUMER(
+        x = self.n,
+    )
+
+    return (
+        r = CONSUMER.r,
+    )
+}
+
+call TOP(
+    n = 1,
+)
+`
+		needle, span = "x = self.n", 1
+	case 1: // a parameter that does not exist is bound
+		text = c07Stages("int", "int", "") + `
+pipeline TOP(
+    in  int n,
+    out int r,
+)
+{
+    call CONSUMER(
+        x = self.n,
+        y = self.n,
+    )
+
+    return (
+        r = CONSUMER.r,
+    )
+}
+
+call TOP(
+    n = 1,
+)
+`
+		needle, span = "y = self.n", 2
+	case 2: // reference to an output that does not exist
+		text = c07Stages("int", "int", "") + `
+pipeline TOP(
+    in  int n,
+    out int r,
+)
+{
+    call PRODUCER(
+        n = self.n,
+    )
+
+    call CONSUMER(
+        x = PRODUCER.zz,
+    )
+
+    return (
+        r = CONSUMER.r,
+    )
+}
+
+call TOP(
+    n = 1,
+)
+`
+		needle = "x = PRODUCER.zz"
+	case 3: // a pipeline input of type SRC passed to a stage input of type DST
+		text = c07Stages("int", dst.text, "") + `
+pipeline TOP(
+    in  ` + src.text + ` p,
+    out int r,
+)
+{
+    call CONSUMER(
+        x = self.p,
+    )
+
+    return (
+        r = CONSUMER.r,
+    )
+}
+
+call TOP(
+    p = null,
+)
+`
+		needle, want = "x = self.p", conv
+	case 4: // a stage output of type SRC returned as a pipeline output of type DST
+		text = c07Stages(src.text, "int", "") + `
+pipeline TOP(
+    in  int n,
+    out ` + dst.text + ` r,
+)
+{
+    call PRODUCER(
+        n = self.n,
+    )
+
+    return (
+        r = PRODUCER.o,
+    )
+}
+
+call TOP(
+    n = 1,
+)
+`
+		needle, want = "r = PRODUCER.o", conv
+	case 5: // the output of a sub-pipeline (declared SRC) bound to DST one level up
+		text = c07Stages(src.text, dst.text, "") + `
+pipeline INNER(
+    in  int n,
+    out ` + src.text + ` o,
+)
+{
+    call PRODUCER(
+        n = self.n,
+    )
+
+    return (
+        o = PRODUCER.o,
+    )
+}
+
+pipeline TOP(
+    in  int n,
+    out int r,
+)
+{
+    call INNER(
+        n = self.n,
+    )
+
+    call CONSUMER(
+        x = INNER.o,
+    )
+
+    return (
+        r = CONSUMER.r,
+    )
+}
+
+call TOP(
+    n = 1,
+)
+`
+		needle, want = "x = INNER.o", conv
+	}
+	c07Verdict(text, want, needle, span)
+}
